@@ -23,3 +23,8 @@ def c06_rank_deficient(facts):
 def c05_repeated(facts):
     """Some singular value is repeated within 1e-8 sigma_1 (zero counted, incl. the |m-n| structural zeros)."""
     return bool(facts and facts.get("repeated"))
+
+
+def c12_rank_lt_R(facts):
+    """Target rank R larger than the rank of the input (internal factors are rank deficient)."""
+    return bool(facts and facts.get("rank_lt_R"))
